@@ -71,7 +71,7 @@ MANIFEST = dict(
 )
 
 IMPORTS = ['Coq.Lists.List', 'Coq.Bool.Bool', 'Coq.ZArith.ZArith', 'Coq.Strings.String', 'SV.SM.Store', 'SV.SM.StoreCert',
-           'SV.SM.StoreCopy', 'SV.SM.StoreCopySrc', 'SV.SM.StoreCopyExport', 'SV.SM.StoreCopyFlow', 'SV.SM.StoreCopyWholeProofs', 'SV.SM.StoreRowCert', 'SV.SM.KvAdd', 'SV.SM.KvAddFresh',
+           'SV.SM.StoreCopy', 'SV.SM.StoreCopySrc', 'SV.SM.StoreCopyExport', 'SV.SM.StoreCopyFlow', 'SV.SM.StoreCopyWholeProofs', 'SV.SM.StoreRowCert', 'SV.SM.StoreExportCert', 'SV.SM.KvAdd', 'SV.SM.KvAddFresh',
            'SV.SM.OpPurity', 'SV.SM.CollapseCensus', 'SV.Gen.CopyCensus_gen', 'SV.Gen.CopyExportReads_gen',
            'SV.Gen.C09OpCensus_gen', 'SV.Gen.C09Collapse_gen', 'SV.Props.C09']
 CORPUS = hc.VERIF / 'corpus' / 'C09'
@@ -422,12 +422,22 @@ def cert_cases(ck: Ck) -> None:
     ck.extra['certificate_rejected'] = [list(m) for m in bad][:20]
 
 
-def export_rows_heap(a: Any, b: Any, ta: Any, tb: Any, fields: list[str]) -> tuple[list, list[int], int, int, list[int]]:
-    """The object graphs of a (original) and b (copy) as a finite heap for the census-row certificate: like
-    c09_util.export_heap, but the two objects the census speaks about (ta inside a, tb inside b) get their fields in
-    CENSUS order, the locations of a's graph are returned as the OLD set and the reach set of tb as the new-set
-    certificate."""
+def export_rows_heap(a: Any, b: Any, ta: Any, tb: Any, label: str, side: dict, eside: dict) -> tuple:
+    """The object graphs of a (original) and b (copy) as a finite heap for the two census certificates: like
+    c09_util.export_heap, but every object whose class has a census (the two objects the census `label` speaks about —
+    ta inside a, tb inside b — and every nested Solid / Side / DispVertex / Output / Keyvalues ...) gets its fields in
+    CENSUS order and its export mask (a field is observed iff the generated export reads of the class contain it and
+    its kind is not ID / context).  Returns nodes, the OLD locations (a's graph), the locations of ta and tb, the reach
+    set of tb (new-set certificate), the masks and a comparison depth (height of the graph + 1)."""
     from harness import c09_util as U
+    census, class_of, reads = side['census'], side.get('class_of', {}), eside.get('reads', {})
+    label_of_class: dict[str, str] = {}
+    for lab in side.get('classes', []):
+        label_of_class.setdefault(class_of.get(lab, lab), lab)
+
+    def mask_of(lab: str) -> list[bool]:
+        rd = set(reads.get(class_of.get(lab, lab), []))
+        return [not (r[0] in rd and r[1] not in ('KId', 'KCtx')) for r in census[lab]]
     wa, wb = U.walk(a), U.walk(b)
     locs: dict[int, int] = {}
     objs: list[Any] = []
@@ -437,10 +447,12 @@ def export_rows_heap(a: Any, b: Any, ta: Any, tb: Any, fields: list[str]) -> tup
                 locs[i] = len(locs) + 1
                 objs.append(o)
     atoms: dict[str, int] = {}
-    nodes = []
+    nodes, masks = [], []
     for o in objs:
-        if o is ta or o is tb:
-            kids = [('.' + f, getattr(o, f)) for f in fields]
+        lab = label if (o is ta or o is tb) else label_of_class.get(type(o).__name__)
+        if lab is not None and type(o).__name__ == class_of.get(lab, lab):
+            kids = [('.' + r[0], getattr(o, r[0])) for r in census[lab]]
+            masks.append((locs[id(o)], mask_of(lab)))
         else:
             kids = U.children(o)
             if isinstance(o, U.Array):
@@ -453,17 +465,36 @@ def export_rows_heap(a: Any, b: Any, ta: Any, tb: Any, fields: list[str]) -> tup
                 key = 'ctx' if U.is_context(ch) else f'{type(ch).__name__}:{ch!r}'
                 fs.append(('A', atoms.setdefault(key, len(atoms))))
         nodes.append((locs[id(o)], U.is_mutable(o), fs))
-    return nodes, [locs[i] for i in wa], locs[id(ta)], locs[id(tb)], [locs[i] for i in U.walk(tb)]
+    kids_of = {loc: [f[1] for f in fs if f[0] == 'R'] for loc, _m, fs in nodes}
+    memo: dict[int, int] = {}
+
+    def height(l: int, stack: tuple = ()) -> int:
+        if l in memo:
+            return memo[l]
+        if l in stack:
+            return 10 ** 6      # a cycle: no depth stabilises, the kernel will reject
+        memo[l] = 1 + max([height(k, stack + (l,)) for k in kids_of.get(l, [])] or [0])
+        return memo[l]
+    depth = min(64, max(height(locs[id(ta)]), height(locs[id(tb)])) + 1)
+    return nodes, [locs[i] for i in wa], locs[id(ta)], locs[id(tb)], [locs[i] for i in U.walk(tb)], masks, depth
 
 
-def cert_rows(ck: Ck, side: dict) -> None:
+def cert_rows(ck: Ck, side: dict, eside: dict) -> None:
     """For generated objects of EVERY census label (nested ones included: a DispVertex of a copied side, a FixupValue
-    of a copied fixup table) export original + copy and let the kernel decide `row_cert_ok` against the generated
-    census_X / sources_X: every field of the copy is related to its source field of the original as the row says
-    (same value / fresh container of the same elements / only new mutables below / a new ID) and the original's fields
-    have the declared kinds — the premises of c09_census_src_copy_independent (c09_row_cert_sound)."""
+    of a copied fixup table) export original + copy and let the kernel decide, against the generated census_X /
+    sources_X / export_reads_X:
+      row_cert_ok    — every field of the copy is related to its source field of the original as the row says (same
+                       value / fresh container of the same elements / only new mutables below / a new ID), the
+                       original's fields have the declared kinds, the heaps are closed: the INDEPENDENCE premises
+                       (c09_row_cert_sound);
+      export_cert_ok — every field export reads is, in the copy, the same value / a fresh container of the same
+                       elements / a nested copy observed equal at every depth under the nested export masks: the
+                       COMPLETENESS premises (c09_export_cert_sound).
+    Both accepted on the same heap + the census obligations = the whole property for that real pair, inside the kernel
+    (c09_real_copy_complete_and_independent)."""
     from harness import c09_util as U
     census = side.get('census', {})
+    class_of = side.get('class_of', {})
     makers: dict[str, tuple[str, Any]] = {
         'EntityFixup_copy_values': ('EntityFixup', lambda o: U.EntityFixup(o.copy_values())),
         'EntityFixup_copy': ('EntityFixup', lambda o: _copy.copy(o)),
@@ -480,7 +511,6 @@ def cert_rows(ck: Ck, side: dict) -> None:
         return f'VRef {f[1]}%positive' if f[0] == 'R' else f'VAtom {f[1]}%Z'
     pl = lambda l: '(' + coq_list(f'{x}%positive' for x in l) + ')'
     for lab, rows in census.items():
-        fields = [r[0] for r in rows]
         got = 0
         for _try in range(4 * n):
             if got >= n:
@@ -511,17 +541,22 @@ def cert_rows(ck: Ck, side: dict) -> None:
                     no_probe.append(lab)
                     break
             try:
-                nodes, old, la, lc, sb = export_rows_heap(o, c, ta, tb, fields)
+                nodes, old, la, lc, sb, masks, depth = export_rows_heap(o, c, ta, tb, lab, side, eside)
             except AttributeError:
                 continue
             if len(nodes) > 700:
                 continue
             lit = coq_list(f'({loc}%positive, Node {"true" if m else "false"} {coq_list(fld(f) for f in fs)})' for loc, m, fs in nodes)
-            exprs.append(f'row_cert_ok {lit} {pl(old)} {la}%positive {lc}%positive {pl(sb)} census_{lab} sources_{lab}')
-            meta.append((lab, seed, len(nodes)))
+            ml = coq_list(f'({loc}%positive, {coq_list("true" if x else "false" for x in mk)})' for loc, mk in masks)
+            exprs.append(f'let L := {lit} in let O := {pl(old)} in '
+                         f'(row_cert_ok L O {la}%positive {lc}%positive {pl(sb)} census_{lab} sources_{lab}, '
+                         f'export_cert_ok L O {la}%positive {lc}%positive {ml} {depth} census_{lab} sources_{lab} '
+                         f'export_reads_{class_of.get(lab, lab)})')
+            meta.append((lab, seed, len(nodes), depth))
             got += 1
             ck.count('row_certificate_cases')
             ck.hist('row_certificate_label', lab)
+            ck.hist('row_certificate_depth', depth)
             ck.seen(('rowcert', lab, seed))
     vals: list[str] | None = []
     for lo in range(0, len(exprs), 55):
@@ -532,17 +567,25 @@ def cert_rows(ck: Ck, side: dict) -> None:
         vals += part
     if vals is None:
         ck.obligation('certificate:census_rows_hold', False, 'exported heaps could not be evaluated by coqc')
+        ck.obligation('certificate:export_rows_hold', False, 'exported heaps could not be evaluated by coqc')
         ck.tie_broken.append('census-row certificate evaluation failed')
         return
-    bad = [m for m, v in zip(meta, vals) if v != 'true']
-    ck.obligation('certificate:census_rows_hold', not bad and not no_probe,
+    flat = [v.replace(' ', '').replace('\n', '') for v in vals]
+    bad_rows = [m for m, v in zip(meta, flat) if not v.startswith('(true,')]
+    bad_exp = [m for m, v in zip(meta, flat) if not v.endswith(',true)')]
+    ck.obligation('certificate:census_rows_hold', not bad_rows and not no_probe,
                   f'{len(exprs)} exported (original, copy) heaps over {len(census) - len(no_probe)} census labels: the kernel decides that '
                   f'every field of the copy is related to its source field as the generated census row says and that the '
-                  f'original\'s fields have the declared kinds, for {len(exprs) - len(bad)}; rejected (label, seed, nodes): '
-                  f'{bad[:6]}; labels without a run-time probe: {no_probe}')
-    if bad or no_probe:
-        ck.tie_broken.append('census rows do not hold on a real (original, copy) object graph: ' + repr((bad + no_probe)[:4]))
-    ck.extra['row_certificate_rejected'] = [list(m) for m in bad][:20]
+                  f'original\'s fields have the declared kinds, for {len(exprs) - len(bad_rows)}; rejected (label, seed, nodes, depth): '
+                  f'{bad_rows[:6]}; labels without a run-time probe: {no_probe}')
+    ck.obligation('certificate:export_rows_hold', not bad_exp and not no_probe,
+                  f'the same {len(exprs)} heaps with the export mask of every labelled node: the kernel decides that every field '
+                  f'export reads is carried over as the row says, nested copies observed equal at every depth (compared at a '
+                  f'stabilised depth), for {len(exprs) - len(bad_exp)}; rejected: {bad_exp[:6]}')
+    if bad_rows or bad_exp or no_probe:
+        ck.tie_broken.append('census rows do not hold on a real (original, copy) object graph: ' + repr((bad_rows + bad_exp + no_probe)[:4]))
+    ck.extra['row_certificate_rejected'] = [list(m) for m in bad_rows][:20]
+    ck.extra['export_certificate_rejected'] = [list(m) for m in bad_exp][:20]
 
 
 # ------------------------------------------------------------------------------------------------ census vs runtime
@@ -1297,7 +1340,7 @@ def run(ck: Ck) -> None:
                     c: side.get('sources', {}).get(c) for c in side.get('classes', []) if not res.get(f'copy_sources_match:{c}', True)}
         lap('instance_obligations')
         cert_cases(ck)
-        cert_rows(ck, side)
+        cert_rows(ck, side, eside)
         lap('certificates')
         corr_census_runtime(ck, side, tuple(k for k, v in res.items() if k.startswith('copy_fresh_mutables:') and not v))
         corr_flows_runtime(ck, side)
@@ -1349,6 +1392,7 @@ def run(ck: Ck) -> None:
     if any_key('shared-mutable:', 'mutation-visible:', 'copy-incomplete:'):
         ck.explain('instance:all_classes_complete_and_independent')
         ck.explain('certificate:census_rows_hold')
+        ck.explain('certificate:export_rows_hold')
     if any_key('instance-collapse-changes-template:', 'instance-'):
         ck.explain('instance:collapse_never_writes_template')
         ck.explain('instance:collapse_only_copies_enter_target')
